@@ -10,7 +10,7 @@ EXPLANATION = (
     "(R2) every module callback and every async wake-up runs inside LocalSet::block_on on the module's own runtime (Harness::exec) "
     "under catch_unwind; (R3) the wake-ups of due timers precede the callback (activate bumps and wakes before the driver is installed) "
     "and every event handler activates before calling into the module; (R4) des does not lower the scheduler's budget or defer tasks "
-    "(no event_interval/global_queue_interval configuration, no spawn_blocking). Decides these necessary conditions only; the number "
+    "(no event_interval/global_queue_interval configuration, no spawn_blocking); (R5) the timer wake-up rules of C05 (next wake-up over all live slots, wake-up scheduled iff recorded, registration/handle typestate) — a sleeping task only becomes runnable if its wake-up event exists. Decides these necessary conditions only; the number "
     "of tasks and the length of wake-up chains at run time are not bounded statically.")
 ASSUMPTIONS = ["tokio's current-thread scheduler polls at most `event_interval` (default 61) tasks between two polls of the block_on future (documented)",
                "tokio::task::yield_now yields exactly once"]
@@ -114,7 +114,41 @@ def r4_budget_untouched(ctx):
     ctx.check(not bad, 'budget-config', 'des neither lowers the scheduler\'s per-tick budget nor moves tasks off the simulation thread', bad[0].where() if bad else None, [s.name for s in bad])
 
 
+def r5_runtime_turn_per_event(ctx):
+    """every event delivered to an active module gives the module's runtime a turn (tasks woken by a processing element are polled)"""
+    ctx.set_rule('C06.R2')
+    P = ctx.P
+    for k in (EV + 'handle_message', EV + 'async_wakeup'):
+        f = P.fns.get(k)
+        if f is None:
+            continue
+        n = 0
+        for path, outcome, decs in fn_paths(ctx, f):
+            if outcome != 'return':
+                continue
+            effs = path_effects(f, path)
+            up = sum(1 for e in effs if e[0] == 'c' and e[1].name.endswith('Processor::incoming_upstream'))
+            ex = sum(1 for e in effs if e[0] == 'c' and e[1].name == H + '::exec')
+            if up == 0:
+                continue
+            n += 1
+            ctx.check(ex == 1, 'turn-per-event:%s' % k.split('::')[-1],
+                      '%s: whenever the event reaches the module (upstream pass ran), the module runtime gets exactly one harness turn — also when a processing element consumed the message' % short(k),
+                      f.where_path(path), {'harness_executions': ex})
+        ctx.floor('delivering paths of %s' % short(k), n, 1)
+
+
+def r6_timer_wakeups(ctx):
+    """a sleeping task becomes runnable at its deadline only if the wake-up event is scheduled (shared with C05)"""
+    from . import C05
+    C05.r1_next_wakeup(ctx, 'C06.R5')
+    C05.r3_wakeup_scheduling(ctx, 'C06.R5')
+    C05.r5_registration(ctx, 'C06.R5')
+
+
 def run(ctx):
+    r5_runtime_turn_per_event(ctx)
+    r6_timer_wakeups(ctx)
     r1_drain(ctx)
     r2_inside_block_on(ctx)
     r3_wake_before_callback(ctx)
